@@ -94,7 +94,7 @@ class C01(Check):
             yield case
 
     # ------------------------------------------------------------------
-    def _plain(self, prog, items, out, cache):
+    def _plain(self, prog, items, out, cache, second=False):
         """-> Snap of the plain path, or None when the case is outside the preconditions"""
         try:
             model.run(prog, items, plain=True)
@@ -111,7 +111,13 @@ class C01(Check):
         ops_ = cache[id(prog)][1]
         import rx
         from ..common import Snap, subscribe
-        return subscribe(rx.from_(items).pipe(*ops_) if ops_ else rx.from_(items), Snap())
+        obs = rx.from_(items).pipe(*ops_) if ops_ else rx.from_(items)
+        first = subscribe(obs, Snap())
+        if second:
+            # the reference for "the same multiplexed observable subscribed again" is the same PLAIN observable
+            # subscribed again (a tee_map pipeline publishes its source: once run, either form only completes)
+            return subscribe(obs, Snap())
+        return first
 
 
     def evaluate(self, case):
@@ -153,8 +159,19 @@ class C01(Check):
             units = [(g, P, enc, got.get(g, [])) for g, enc in lifetimes_in]
         elif mode == 'multiplex':
             items = list(seqs[0])
-            snap = progs.run_mux(prog, items)
+            from ..common import Snap
+            # The same multiplexed observable subscribed a second time owes the same events (per-key state belongs
+            # to the subscription).  Not asked of pipelines holding a tee_map: it publishes its source (RxPY
+            # publish()/connect()), so once run, the plain form and the multiplexed form alike only complete.
+            again = Snap() if 'tee_map' not in names else None
+            snap = progs.run_mux(prog, items, again=again)
             units = [(0, prog, items, snap.out)]
+            if again is not None:
+                units.append(('second subscription of the same observable', prog, items, again.out))
+                out.observed['second_subscriptions_of_one_observable'] += 1
+                if (again.err is None) != (snap.err is None) or again.done != snap.done:
+                    return out.fail('second-subscription-of-the-same-observable-ends-differently', first=[repr(snap.err), snap.done],
+                                    second=[repr(again.err), again.done])
         else:
             items = list(seqs[0])
             node = list(case['ctx'])
@@ -178,7 +195,7 @@ class C01(Check):
         plains = []
         cache = {}
         for g, P, its, mux_out in units:
-            s = self._plain(P, its, out, cache)
+            s = self._plain(P, its, out, cache, second=(g == 'second subscription of the same observable'))
             if s is None:
                 return out
             plains.append(s)
@@ -196,7 +213,7 @@ class C01(Check):
                 k = next((i for i, (a, b) in enumerate(zip(s.out, mux_out)) if norm(a) != norm(b)), min(len(s.out), len(mux_out)))
                 return out.fail('multiplexed-output-differs-from-plain-output', mech=mech, group=g, group_items=its[:40], first_difference=k,
                                 plain=s.out[max(0, k - 1):k + 3], mux=mux_out[max(0, k - 1):k + 3], n_plain=len(s.out), n_mux=len(mux_out))
-        if len(units) >= 2 and len(prog) >= 2 and emitted:
+        if len(units) >= 2 and units[1][0] != 'second subscription of the same observable' and len(prog) >= 2 and emitted:
             out.nontrivial = True
         return out
 
